@@ -628,12 +628,17 @@ func (d *ColumnDetector) createColumnsFromGaps(fragments []text.TextFragment, ga
 		// Find which column this fragment belongs to
 		fragCenter := f.X + f.Width/2
 
+		// Boundaries are half-open, so a fragment whose centre sits exactly on the
+		// right edge of the content (a zero-width fragment at the margin) matches
+		// none of them; it belongs to the last column.
+		target := len(columns) - 1
 		for i := range columns {
 			if fragCenter >= boundaries[i].left && fragCenter < boundaries[i].right {
-				columns[i].Fragments = append(columns[i].Fragments, f)
+				target = i
 				break
 			}
 		}
+		columns[target].Fragments = append(columns[target].Fragments, f)
 	}
 
 	// Update column bounding boxes
@@ -651,6 +656,7 @@ func (d *ColumnDetector) createColumnsFromGaps(fragments []text.TextFragment, ga
 // validateColumns validates and cleans up detected columns
 func (d *ColumnDetector) validateColumns(columns []Column) []Column {
 	var valid []Column
+	var pending []text.TextFragment // fragments of narrow columns seen before the first valid one
 
 	for _, col := range columns {
 		// Skip empty columns
@@ -658,12 +664,30 @@ func (d *ColumnDetector) validateColumns(columns []Column) []Column {
 			continue
 		}
 
-		// Skip columns that are too narrow
+		// A column that is too narrow is not a column of its own, but its text
+		// must not disappear: fold it into the neighbouring column.
 		if col.BBox.Width < d.config.MinColumnWidth {
+			if len(valid) > 0 {
+				prev := &valid[len(valid)-1]
+				prev.Fragments = append(prev.Fragments, col.Fragments...)
+				prev.BBox = fragmentsBBox(prev.Fragments)
+			} else {
+				pending = append(pending, col.Fragments...)
+			}
 			continue
 		}
 
+		if len(pending) > 0 {
+			col.Fragments = append(pending, col.Fragments...)
+			col.BBox = fragmentsBBox(col.Fragments)
+			pending = nil
+		}
 		valid = append(valid, col)
+	}
+
+	// Only narrow columns: keep their text as a single column
+	if len(pending) > 0 {
+		valid = append(valid, Column{BBox: fragmentsBBox(pending), Fragments: pending})
 	}
 
 	// Re-index columns
@@ -1007,7 +1031,9 @@ func (l *ColumnLayout) GetFragmentsInReadingOrder() []text.TextFragment {
 		return nil
 	}
 
+	// Spanning content (full-width titles) first, as in GetText, then the columns
 	var result []text.TextFragment
+	result = append(result, l.SpanningFragments...)
 	for _, col := range l.Columns {
 		result = append(result, col.Fragments...)
 	}
